@@ -1115,7 +1115,11 @@ func Retract(vm *VM, t Term, k Cont, env *Env) *Promise {
 	ks := make([]func(context.Context) *Promise, len(u.clauses))
 	for i, c := range u.clauses {
 		c := c
-		raw := rulify(c.raw, env)
+		cp, err := renamedCopy(c.raw, nil, env)
+		if err != nil {
+			return Error(err)
+		}
+		raw := rulify(cp, env)
 		ks[i] = func(_ context.Context) *Promise {
 			return Unify(vm, t, raw, func(env *Env) *Promise {
 				// The database may have changed since the call. Remove the very clause we unified with, if it's still there.
